@@ -149,3 +149,15 @@ Proof. vm_compute. repeat split; reflexivity. Qed.
 Example hist_theorem_instance :
   exists s, get_sess (fst (st_of hist_ops2)) 2 = Some s /\ is_virtual (s_kind s) = false /\ s_room s = Some (0, 1) /\ s_conn s = None.
 Proof. eexists. vm_compute. repeat split; reflexivity. Qed.
+
+(* the history theorem with the invariant unfolded for one session *)
+Theorem replica_converges_history_explicit limits gated ops x s k :
+  let st := grun (init limits gated, g0) ops in
+  fst st = run (init limits gated) ops /\
+  (get_sess (fst st) x = Some s -> is_virtual (s_kind s) = false -> s_room s = Some k ->
+   exists r d, room_of (fst st) k = Some r /\ r_transient r = d /\
+               replayT (s_pending s) (g_rep (snd st) x) = Some (snd k, d) /\
+               (forall c, s_conn s = Some c -> s_pending s = [] /\ g_rep (snd st) x = Some (snd k, d))).
+Proof.
+  cbv zeta. destruct (replica_converges_history limits gated ops) as [E R]. split; [exact E|]. intros Hs Hv Hk. exact (R x s k Hs Hv Hk).
+Qed.
